@@ -2,7 +2,7 @@
    layer_icmp6_options.go produce is the RFC 4861 4.6 encoding of the requested option list, which the
    reference option walker decodes back; with the frame-level lemma of SendIcmp6.v this gives the full
    well-formedness of every Router Advertisement sent. *)
-From PV Require Import Proofs.SendBase Model.Send Model.SendNdp Spec.SendRefUdp Proofs.Send Proofs.SendIcmp6.
+From PV Require Import Proofs.SendBase Model.Send Model.SendNdp Spec.SendRefUdp Proofs.Send Proofs.SendNdp Proofs.SendIcmp6.
 Open Scope N_scope.
 
 Lemma natN_to_nat n : natN n = N.to_nat n.
@@ -291,4 +291,32 @@ Proof.
   split; [repeat constructor; try (cbn; lia); oks|].
   split; [repeat constructor; oks|].
   split; [reflexivity|]. vm_compute. reflexivity.
+Qed.
+
+(* ---------------------------------------------------------------- *)
+(* hosts without an IPv6 link-local address (NICInfo.HostLLA unset): RS and RA leave with the unspecified
+   source address ::, everything else as above *)
+Definition with_zero_lla (c : cfg) : cfg :=
+  mkCfg (host_mac c) (host_ip4 c) (repeat 0 16) (router_mac c) (router_ip4 c) (mtu c).
+
+Lemma rs_wf_no_lla c junk :
+  mac_ok (host_mac c) -> host_lla c = [] -> length junk = EthMaxSize ->
+  exists fr, send_rs c junk = Ok [fr] /\ wf_rs (host_mac c) (repeat 0 16) fr = true.
+Proof.
+  intros H1 H2 HJ.
+  assert (E : send_rs c junk = send_rs (with_zero_lla c) junk).
+  { destruct c as [hm hip hlla rm rip m]. cbn [host_lla] in H2. subst hlla. reflexivity. }
+  rewrite E. apply (rs_wf (with_zero_lla c) junk); auto. split; [reflexivity|oks].
+Qed.
+
+Lemma ra_wf_no_lla c pf rd dm di junk fr :
+  mac_ok (host_mac c) -> host_lla c = [] -> mac_ok dm -> ip6_ok di -> pf_ok pf -> rd_ok rd ->
+  length junk = EthMaxSize ->
+  send_ra c pf rd (dm, di) junk = Ok [fr] ->
+  wf_ra (host_mac c) (repeat 0 16) (mtu c) pf rd dm di fr = true.
+Proof.
+  intros H1 H2 H3 H4 Hp Hr HJ Hs.
+  assert (E : send_ra c pf rd (dm, di) junk = send_ra (with_zero_lla c) pf rd (dm, di) junk).
+  { destruct c as [hm hip hlla rm rip m]. cbn [host_lla] in H2. subst hlla. reflexivity. }
+  rewrite E in Hs. apply (ra_wf (with_zero_lla c) pf rd dm di junk fr); auto. split; [reflexivity|oks].
 Qed.
